@@ -10,22 +10,25 @@ THEOREMS = [(M, "NQ.C09." + n) for n in [
     "inv_init", "agree_preserved_partial", "agree_step_partial", "no_alloc_fault", "agree_after_flush",
     "step_alloc_ok", "step_use_ok", "step_free_ok",
     "id_reuse_free", "id_reuse_meas", "id_choice",
-    "f12_counterexample", "f29_counterexample", "f28_counterexample", "f30_counterexample",
-    "nv_context_counterexample"]]
+    "f12_fixed_witness", "f29_fixed_witness", "nv_context_fixed_witness",
+    "f28_counterexample", "f30_counterexample"]]
 TRANSLATORS = []
 LEVEL_TEXT = (
     "Lean theorems over histories of ANY length (induction over the operation list): the joint "
     "invariant of SDK bookkeeping and controller unit module (pending instructions run without "
     "allocation fault and end in exactly the SDK's active id set; ids pairwise distinct, inside the "
     "unit module, within the budget) is preserved by creation, gates, in-place/destructive "
-    "measurement, free, EPR keep, flush and close on generic and NV configurations with and without "
-    "the transpiler, incl. the NV relocation with its peephole as coded; Agree after every flush; "
-    "id reuse after free/destructive measurement. PARTIAL: the hypothesis `good` excludes the open "
-    "findings F12 (context blocks), F29 (sequential keep), F28 (NV multi-pair keep while an id in "
-    "1..n-1 is taken after the relocation; every other NV keep is proved) and F30 (carbon-carbon gates under the NV transpiler while "
-    "id 0 is free); each has a kernel-proved counter-example. Tie: differential correspondence of "
-    "the compiled model with the real SDK -> bytes -> Executor pipeline after every operation "
-    "(handle ids/active flags, executed allocation events, unit module, error class).")
+    "measurement, free, EPR keep, sequential keep with post routine, context blocks (both roles, "
+    "any number of pairs, loops proved by induction over the pairs), flush and close on generic and "
+    "NV configurations with and without the transpiler, incl. the NV relocation with its peephole as "
+    "coded; Agree after every flush; id reuse after free/destructive measurement. PARTIAL: the "
+    "hypothesis `good` excludes the two open findings F28 (NV multi-pair keep while an id in 1..n-1 "
+    "is taken after the relocation; every other NV keep is proved) and F30 (carbon-carbon gates "
+    "under the NV transpiler while id 0 is free); each has a kernel-proved counter-example. F11, "
+    "F13, F12, F29 and the NV context-block deadlock are fixed in /repo and the fixed code is what "
+    "is modelled. Tie: differential correspondence of the compiled model with the real SDK -> bytes "
+    "-> Executor pipeline after every operation (handle ids/active flags, executed allocation "
+    "events, unit module, error class).")
 LEVEL_NOTE = (
     "Trusted: Lean kernel; harness/qubits.py (event recording through the executor's documented "
     "extension points, canonicalisation: consecutive uses merged into sets); the subroutine is "
@@ -60,19 +63,19 @@ CORPUS = [
       {"k": "flush"}]),
     (None, {"nv": True, "transp": False, "maxq": 5},  # peephole still fires for the right qubit
      [{"k": "new"}, {"k": "keep", "recv": False, "n": 1}, {"k": "flush"}, {"k": "close"}]),
-    ("F12", {"nv": False, "transp": False, "maxq": 5},
+    (None, {"nv": False, "transp": False, "maxq": 5},  # F12 witness (fixed)
      [{"k": "ctx", "recv": False, "n": 3, "sequential": False, "body": {"g": 1, "c": "meas"}},
       {"k": "flush"},
       {"k": "ctx", "recv": False, "n": 3, "sequential": False, "body": {"g": 1, "c": "meas"}},
       {"k": "flush"}]),
-    ("F12", {"nv": True, "transp": False, "maxq": 5},
+    (None, {"nv": True, "transp": False, "maxq": 5},  # NV non-sequential context block (fixed)
      [{"k": "ctx", "recv": True, "n": 2, "sequential": False, "body": {"g": 0, "c": "meas"}},
       {"k": "flush"}]),
     ("F28", {"nv": True, "transp": False, "maxq": 5},
      [{"k": "new"}, {"k": "keep", "recv": True, "n": 2}, {"k": "flush"}]),
-    ("F29", {"nv": False, "transp": False, "maxq": 2},
+    (None, {"nv": False, "transp": False, "maxq": 2},  # F29 witness (fixed)
      [{"k": "seq", "recv": False, "n": 2, "body": {"g": 0, "c": "meas"}}, {"k": "flush"}]),
-    ("F29", {"nv": True, "transp": False, "maxq": 5},
+    (None, {"nv": True, "transp": False, "maxq": 5},  # F29 NV witness (fixed)
      [{"k": "seq", "recv": False, "n": 1, "body": {"g": 0, "c": "meas"}}, {"k": "flush"},
       {"k": "new"}, {"k": "meas", "h": 1, "inplace": False}, {"k": "flush"}]),
     ("F30", {"nv": True, "transp": True, "maxq": 5},
@@ -121,13 +124,6 @@ def run(ctx):
             alt_cfg = dict(cfg, transp=False, nv=True)
             if fails(alt_cfg, small, **kw) is None:
                 kf = "F30"
-        for fid, kind in (("F12", "ctx"), ("F29", "seq")):
-            if kf is None and any(o["k"] == kind for o in small):
-                alt = small
-                while any(o["k"] == kind for o in alt):
-                    alt = H.remove_op(alt, next(i for i, o in enumerate(alt) if o["k"] == kind))
-                if fails(cfg, alt, **kw) is None:
-                    kf = fid
         return small, note, kf
 
     def compare(cfg, ops, stream):
@@ -168,7 +164,6 @@ def run(ctx):
 
     # ---- correspondence + oracle
     n_cases = 20000 if ctx.thorough else 1500
-    loop_budget = 500 if ctx.thorough else 40  # failing loop programs that are shrunk and matched
     for it in range(n_cases):
         cfg = {"nv": rng.random() < 0.6, "transp": False, "maxq": rng.randint(1, 5)}
         if rng.random() < 0.35:
@@ -178,17 +173,7 @@ def run(ctx):
         ops = H.random_ops(rng, cfg, rng.randint(1, 14), loops=rng.random() < 0.5,
                            over_budget=rng.random() < 0.12)
         real, notes = compare(cfg, ops, "qm.random")
-        has_loop = any(o["k"] in ("seq", "ctx") for o in ops)
-        if has_loop:
-            wf, inb, _ = H.analyse(cfg, ops)
-            if notes and wf and inb:
-                if loop_budget > 0:
-                    loop_budget -= 1
-                    oracle(cfg, ops, notes)
-                else:
-                    res.count("oracle:loop-failure-not-examined")
-        else:
-            oracle(cfg, ops, notes)
+        oracle(cfg, ops, notes)
         if len(res.samples) < 6 and it % 53 == 0:
             res.samples.append({"cfg": cfg, "ops": ops, "last": real[-1] if real else None})
 
@@ -196,7 +181,7 @@ def run(ctx):
     n_bell = 5000 if ctx.thorough else 300
     for it in range(n_bell):
         cfg = {"nv": rng.random() < 0.5, "transp": rng.random() < 0.3, "maxq": rng.randint(1, 5)}
-        ops = H.random_ops(rng, cfg, rng.randint(2, 12), loops=False)
+        ops = H.random_ops(rng, cfg, rng.randint(2, 12), loops=rng.random() < 0.5)
         bell = rng.randrange(4)
         _, notes = H.run_real(cfg, ops, bell=bell)
         res.evaluations += 1
